@@ -473,6 +473,22 @@ def _multi_op_transactions(ctx, rep, base):
         tx.commit()
     rep.evaluations += 1
     rep.nontrivial(["multi-op", 1])
+    # tie with the model of the partition loop: which queued append each committed data file came from, in manifest order
+    try:
+        v_ = reader.view(p)
+        cur_ = [s_ for s_ in v_["snaps"] if s_["id"] == v_["cur"]][0]
+        origin = {10: 1, 11: 1, 20: 2, 30: 3, 40: 4}
+        seq = []
+        for f_ in cur_["files"]:
+            vals = {r_["a"] for r_ in reader.read_rows(reader.DirStore(p), f_)}
+            seq.append(str(sorted({origin.get(a_, 0) for a_ in vals})[0]))
+        impl_ = "appends=" + ",".join(seq) + " deletes= cutoff=- shape=fileOps"
+        m_ = driver.ask(["tx.partition a:1 a:2 a:3 a:4"])[0]
+        rep.corr_cases += 1
+        if m_ != impl_:
+            rep.diverge("tx.partition (operations queued in one transaction)", {"kind": "multi-op-transaction"}, m_, impl_)
+    except Exception as e:      # noqa: BLE001
+        rep.notes.append(f"multi-op tie skipped: {type(e).__name__}")
     for label, hh in (("same-handle", t), ("fresh-handle", load_table(p))):
         got = sorted(r["a"] for r in hh.scan())
         if got != [10, 11, 20, 30, 40] or hh.row_count() != 5:
